@@ -142,3 +142,88 @@ def all_defs():
 def all_defs_extended():
     """every definition any check may reference (for replay lookups)"""
     return all_defs()
+
+
+# ----------------------------------------------------------------------------- callbacks (C13, C06)
+CB_PRELUDE = '''
+#[derive(Debug, PartialEq, Clone, Default)]
+pub enum MyErr { #[default] Default, Bad(u8), FromUnit }
+impl From<u8> for MyErr { fn from(b: u8) -> Self { MyErr::Bad(b) } }
+impl From<()> for MyErr { fn from(_: ()) -> Self { MyErr::FromUnit } }
+pub type L<'s> = Lexer<'s, Tok>;
+fn first(lex: &L) -> u8 { lex.slice().as_bytes()[0] }
+fn last(lex: &L) -> u8 { let s = lex.slice().as_bytes(); s[s.len() - 1] }
+'''
+
+
+def cb_defs():
+    D = []
+    # every documented return type on unit variants
+    D.append(Def('cb_unit', error='MyErr', prelude=CB_PRELUDE + '''
+pub fn cb_unit(_lex: &mut L) {}
+pub fn cb_bool(lex: &mut L) -> bool { lex.slice().len() % 2 == 0 }
+pub fn cb_result_unit(lex: &mut L) -> Result<(), u8> { if last(lex) == b'x' { Err(lex.slice().len() as u8) } else { Ok(()) } }
+pub fn cb_skip(_lex: &mut L) -> Skip { Skip }
+pub fn cb_result_skip(lex: &mut L) -> Result<Skip, u8> { if lex.slice().len() > 2 { Err(7) } else { Ok(Skip) } }
+''', variants=[
+        Var('U', [R('u+', cb='cb_unit', cb_kind='unit', cb_fn='cb_unit')]),
+        Var('B', [R('b+', cb='cb_bool', cb_kind='bool', cb_fn='cb_bool')]),
+        Var('R', [R('r[a-z]', cb='cb_result_unit', cb_kind='result_unit', cb_fn='cb_result_unit')]),
+        Var('S', [R('s+', cb='cb_skip', cb_kind='skip', cb_fn='cb_skip')]),
+        Var('Q', [R('q+', cb='cb_result_skip', cb_kind='result_skip', cb_fn='cb_result_skip')]),
+        Var('Plain', [T('p')])], tags=('cb', 'quick')))
+    # value variants
+    D.append(Def('cb_value', error='MyErr', prelude=CB_PRELUDE + '''
+pub fn cb_value(lex: &mut L) -> usize { lex.slice().len() }
+pub fn cb_option(lex: &mut L) -> Option<u8> { if first(lex) == b'0' { None } else { Some(last(lex)) } }
+pub fn cb_result(lex: &mut L) -> Result<u8, u8> { if lex.slice().len() > 2 { Err(last(lex)) } else { Ok(first(lex)) } }
+pub fn cb_filter(lex: &mut L) -> Filter<usize> { if last(lex) == b'!' { Filter::Skip } else { Filter::Emit(lex.span().start) } }
+pub fn cb_filter_result(lex: &mut L) -> FilterResult<u8, u8> {
+    match lex.slice().len() { 1 => FilterResult::Skip, 2 => FilterResult::Emit(last(lex)), _ => FilterResult::Error(3) }
+}
+''', variants=[
+        Var('V', [R('v+', cb='cb_value', cb_kind='value', cb_fn='cb_value')], field='usize'),
+        Var('O', [R('[0-9]+', cb='cb_option', cb_kind='option', cb_fn='cb_option')], field='u8'),
+        Var('R', [R('r+', cb='cb_result', cb_kind='result', cb_fn='cb_result')], field='u8'),
+        Var('F', [R('f!?', cb='cb_filter', cb_kind='filter', cb_fn='cb_filter')], field='usize'),
+        Var('G', [R('g+', cb='cb_filter_result', cb_kind='filter_result', cb_fn='cb_filter_result')], field='u8')],
+        tags=('cb', 'quick')))
+    D.append(Def('value_slice', skips=[R(' +')], variants=[
+        Var('Sl', [R('[x-z]+')], field="&'s str"), Var('Num', [R('[0-9]+')], field="&'s str"), Var('C', [T(',')])],
+        tags=('cb', 'quick')))
+    # "any token" callbacks on unit variants, inline closure syntax, named callback argument
+    D.append(Def('cb_token', error='MyErr', prelude=CB_PRELUDE + '''
+pub fn cb_token(lex: &mut L) -> Tok { if lex.slice().len() == 1 { Tok::One } else { Tok::Many } }
+pub fn cb_result_token(lex: &mut L) -> Result<Tok, u8> { if first(lex) == b'n' { Err(1) } else { Ok(Tok::Many) } }
+pub fn cb_filter_token(lex: &mut L) -> Filter<Tok> { if lex.slice().len() > 1 { Filter::Skip } else { Filter::Emit(Tok::One) } }
+pub fn cb_inline(lex: &mut L) -> bool { first(lex) != b'I' }
+''', variants=[
+        Var('One', [R('t+', cb='cb_token', cb_kind='token', cb_fn='cb_token')]),
+        Var('Many', [R('[mn]+', cb='cb_result_token', cb_kind='result_token', cb_fn='cb_result_token', cb_named=True)]),
+        Var('Fl', [R('l+', cb='cb_filter_token', cb_kind='filter_token', cb_fn='cb_filter_token')]),
+        Var('In', [R('[iI]', cb='|lex| cb_inline(lex)', cb_kind='bool', cb_fn='cb_inline')])], tags=('cb',)))
+    # skips with callbacks, extras, error callback, bump inside a callback
+    D.append(Def('cb_skip_err', error='MyErr', error_cb='cb_err', extras='usize', prelude=CB_PRELUDE + '''
+pub fn cb_err(lex: &mut L) -> MyErr { MyErr::Bad(lex.slice().len() as u8) }
+pub fn cb_newline(lex: &mut L) { lex.extras += 1; }
+pub fn cb_skip_result(lex: &mut L) -> Result<(), u8> { if first(lex) == b'e' { Err(9) } else { Ok(()) } }
+pub fn cb_bump(lex: &mut L) -> bool {
+    let r = lex.remainder().as_bytes();
+    if !r.is_empty() && r[0] == b'+' { lex.bump(1); }
+    true
+}
+pub fn cb_bool(lex: &mut L) -> bool { lex.slice().len() != 3 }
+''', skips=[R(r'\n', cb='cb_newline', cb_kind='skip_unit', cb_fn='cb_newline'),
+            R('e|f', cb='cb_skip_result', cb_kind='skip_result', cb_fn='cb_skip_result')], variants=[
+        Var('W', [R('w+', cb='cb_bump', cb_kind='bool', cb_fn='cb_bump')]),
+        Var('A', [R('a+', cb='cb_bool', cb_kind='bool', cb_fn='cb_bool')]),
+        Var('Plus', [T('+')])], tags=('cb', 'cb_err', 'no_consumption_rule', 'quick')))
+    return D
+
+
+def all_defs():     # noqa: F811  (extends the earlier definition)
+    return core() + reject_core() + cb_defs()
+
+
+def all_defs_extended():    # noqa: F811
+    return all_defs()
